@@ -256,6 +256,37 @@ def classify(stderr, rc):
 # ----------------------------------------------------------------------------
 # child-process runner
 
+def _run_group(cmd, env, timeout, sdir, tag):
+    """Run `cmd` in its own session with stdout/stderr in files, then kill the whole
+    process group: the ASan runtime forks an llvm-symbolizer that outlives a halted
+    process and would otherwise keep pipes open for ever.  Returns (rc or None, stderr)."""
+    import signal
+    ferr = Path(sdir) / f"{tag}.stderr"
+    fout = Path(sdir) / f"{tag}.stdout"
+    with open(ferr, "wb") as fe, open(fout, "wb") as fo:
+        p = subprocess.Popen(cmd, env=env, stdout=fo, stderr=fe, stdin=subprocess.DEVNULL,
+                             cwd=str(sdir), start_new_session=True)
+        try:
+            rc = p.wait(timeout=timeout)
+        except subprocess.TimeoutExpired:
+            rc = None
+        try:
+            os.killpg(p.pid, signal.SIGKILL)
+        except (ProcessLookupError, PermissionError):
+            pass
+        try:
+            p.wait(timeout=10)
+        except subprocess.TimeoutExpired:
+            pass
+    err = ferr.read_bytes()[-200000:].decode(errors="replace")
+    for f in (ferr, fout):
+        try:
+            f.unlink()
+        except OSError:
+            pass
+    return rc, err
+
+
 def run_worker(script, cases, env, timeout_per_case=60, label="worker"):
     """Run `cases` (JSON-serialisable) through `script` (a python file taking
     <cases.json> <start index> <results.jsonl>) in a sanitized child.
@@ -264,7 +295,7 @@ def run_worker(script, cases, env, timeout_per_case=60, label="worker"):
     case it is about to run to <results>.cur.  Returns a list, one entry per case:
       {"status": "ok", "result": ...}                         finished
       {"status": "crash", "mode": ..., "loc": ..., "report": ...}  sanitizer report / abnormal end
-    """
+    plus the list of abnormal ends that could not be attributed to a case."""
     sdir = cm.scratch()
     cfile = sdir / f"{label}_cases.json"
     rfile = sdir / f"{label}_results.jsonl"
@@ -273,20 +304,16 @@ def run_worker(script, cases, env, timeout_per_case=60, label="worker"):
     if rfile.exists():
         rfile.unlink()
     out = [None] * len(cases)
+    extras = []
     start = 0
     nrestart = 0
     while start < len(cases):
         if cur.exists():
             cur.unlink()
         nleft = len(cases) - start
-        try:
-            p = subprocess.run([cm.PY, str(script), str(cfile), str(start), str(rfile)],
-                               env=env, capture_output=True, text=True, errors="replace",
-                               timeout=max(120, timeout_per_case * min(nleft, 50) if nleft < 50
-                                           else 120 + 2 * nleft), cwd=str(sdir))
-            rc, err = p.returncode, p.stderr
-        except subprocess.TimeoutExpired as e:
-            rc, err = None, (e.stderr.decode(errors="replace") if isinstance(e.stderr, bytes) else (e.stderr or ""))
+        budget = max(180, timeout_per_case * nleft) if nleft < 40 else 180 + 3 * nleft
+        rc, err = _run_group([cm.PY, str(script), str(cfile), str(start), str(rfile)], env, budget,
+                             sdir, f"{label}_{start}")
         done = start
         if rfile.exists():
             for line in rfile.read_text().splitlines():
@@ -306,12 +333,18 @@ def run_worker(script, cases, env, timeout_per_case=60, label="worker"):
                 at = int(cur.read_text().strip())
             except ValueError:
                 at = done
+        if at < start:
+            # died before reaching a case (import of the sanitized modules failed...)
+            mode, loc = classify(err, rc)
+            extras.append({"status": "crash", "mode": mode, "loc": loc, "report": err[-3000:],
+                           "at": "startup"})
+            break
         if at >= len(cases):
             # died after the last case (interpreter shutdown): attribute to nothing
             if rc != 0:
                 mode, loc = classify(err, rc)
-                out.append({"status": "crash", "mode": mode, "loc": loc, "report": err[-3000:],
-                            "at": "interpreter-exit"})
+                extras.append({"status": "crash", "mode": mode, "loc": loc, "report": err[-3000:],
+                               "at": "interpreter-exit"})
             break
         mode, loc = classify(err, rc)
         out[at] = {"status": "crash", "mode": mode, "loc": loc, "report": err[-3000:]}
@@ -324,4 +357,4 @@ def run_worker(script, cases, env, timeout_per_case=60, label="worker"):
     for k in range(len(cases)):
         if out[k] is None:
             out[k] = {"status": "skipped"}
-    return out
+    return out, extras
